@@ -130,9 +130,35 @@ class FuncVal:
         self.is_classmethod = "classmethod" in decos
         self.is_static = "staticmethod" in decos
         self.is_property = "property" in decos
+        # decorators change what a call does: the ones the package uses are modelled, anything else is a gap of the
+        # model (never silently dropped).  functools.lru_cache / cache: results memoised per argument tuple, looked up
+        # with Python's own equality and hashing (0.0 == -0.0, 1 == 1.0 == True)
+        self.memo = None
+        self.unmodelled_deco = None
+        for d in decos:
+            base = d.split("(")[0].split(".")[-1]
+            if base in ("classmethod", "staticmethod", "property", "abstractmethod", "wraps"):
+                continue
+            if base in ("lru_cache", "cache"):
+                self.memo = {}
+            elif d.endswith(".setter") or d.endswith(".getter"):
+                self.unmodelled_deco = d
+            else:
+                self.unmodelled_deco = d
 
     def __repr__(self):
         return f"<function {self.qual}>"
+
+
+_NOTFOUND = object()
+
+
+class SuperProxy:
+    """super() inside a method: attribute lookup continues after `owner` in the MRO of the object's class"""
+
+    def __init__(self, owner, selfv):
+        self.owner = owner
+        self.selfv = selfv
 
 
 class ClassMethodVal:
@@ -414,7 +440,7 @@ class Interp:
         if name in g:
             return g[name]
         mod = self.m.mod(modname)
-        found = None
+        found = _NOTFOUND
         for st in self._toplevel(mod.raw_tree.body):
             if isinstance(st, ast.FunctionDef) and st.name == name:
                 found = FuncVal(st, modname)
@@ -521,11 +547,11 @@ class Interp:
             elif isinstance(st, ast.AnnAssign) and isinstance(st.target, ast.Name) and st.target.id == name and st.value is not None:
                 fr = Frame(None, g, modname)
                 found = self.eval(st.value, fr)
-            if found is not None:
+            if found is not _NOTFOUND:
                 if isinstance(st, (ast.Assign, ast.AnnAssign)) and isinstance(found, (dict, list, set)):
                     self._replay_module_mutations(mod, modname, name, st, g, found)
                 break
-        if found is None:
+        if found is _NOTFOUND:
             if name in self.builtins:
                 return self.builtins[name]
             raise AnalysisError(f"peval: name `{name}` not found in module {modname}")
@@ -576,6 +602,7 @@ class Interp:
             for st in cv.node.body:
                 if isinstance(st, ast.FunctionDef):
                     attrs[st.name] = FuncVal(st, cv.modname, qual=f"{cv.name}.{st.name}")
+                    attrs[st.name].owner = cv
                 elif isinstance(st, ast.Assign):
                     try:
                         v = self.eval(st.value, Frame(None, dict(attrs), cv.modname))
@@ -633,6 +660,23 @@ class Interp:
         return any(x is target for x in self.mro(c))
 
     def getattr(self, v, name, node=None, default=KeyError):
+        if isinstance(v, SuperProxy):
+            sv = v.selfv
+            start = sv.cls if isinstance(sv, Obj) and sv.kind != "class" else sv
+            chain = self.mro(start)
+            k0 = next((i for i, c in enumerate(chain) if c is v.owner), None)
+            if k0 is None:
+                raise AnalysisError(f"peval: super(): {v.owner!r} is not in the MRO of {start!r}")
+            for c in chain[k0 + 1:]:
+                attrs = c.attrs if isinstance(c, Obj) else self.class_attrs(c)
+                if name in attrs:
+                    return self._bind(attrs[name], sv, start)
+            if name in ("__getstate__",):
+                # object.__getstate__ (Python >= 3.11): the instance dictionary itself
+                return Builtin("object.__getstate__", lambda _sv=sv: _sv.attrs)
+            if name == "__init__":
+                return Builtin("object.__init__", lambda *a, **k: None)
+            raise PyExc("AttributeError", f"'super' object has no attribute {name}")
         # instance of a class
         if isinstance(v, Obj) and v.kind != "class":
             if v.cls is not None and v.kind == "instance" and not (name.startswith("__") and name.endswith("__")):
@@ -736,7 +780,7 @@ class Interp:
             return default
         if isinstance(v, SArr):
             raise AnalysisError(f"peval: ndarray.{name} is not modelled")
-        if isinstance(v, Obj) and v.cls is None and v.kind not in ("instance", "class", "desc", "value", "view", "buffer", "context"):
+        if isinstance(v, Obj) and v.cls is None and v.kind not in ("instance", "class", "desc", "value", "view"):
             # an abstract stand-in written for one rule (numpy array, memoryview, storage, ...): the real object may well have
             # this attribute -- a gap of the model, not an error of the analysed program
             raise AnalysisError(f"peval: abstract {v.kind} `{v.name}` has no modelled attribute `{name}`")
@@ -856,6 +900,21 @@ class Interp:
         act[f.qual] = act.get(f.qual, 0) + 1
         mx[f.qual] = max(mx.get(f.qual, 0), act[f.qual])
         try:
+            if getattr(f, "unmodelled_deco", None):
+                raise AnalysisError(f"peval: decorator `@{f.unmodelled_deco}` of {f.qual} is not modelled")
+            if getattr(f, "memo", None) is not None:
+                try:
+                    k_ = (tuple(args), tuple(sorted(kwargs.items())))
+                    hash(k_)
+                except TypeError:
+                    raise PyExc("TypeError", f"unhashable argument of the memoised function {f.qual}")
+                # (per evaluation path: the memo of an explored path must not leak into another one)
+                memo = self.mem.setdefault("#memo:" + f.qual, {}) if hasattr(self, "mem") and isinstance(self.mem, dict) else f.memo
+                if k_ in memo:
+                    return memo[k_]
+                r_ = self._call_function(f, args, kwargs)
+                memo[k_] = r_
+                return r_
             return self._call_function(f, args, kwargs)
         finally:
             act[f.qual] -= 1
@@ -1041,9 +1100,27 @@ class Interp:
                 if isinstance(t, ast.Subscript):
                     c = self.eval(t.value, fr)
                     k = self.eval(t.slice, fr)
-                    del c[k]
+                    if isinstance(c, dict):
+                        if k not in c:
+                            raise PyExc("KeyError", repr(k))
+                        del c[k]
+                    elif isinstance(c, list):
+                        try:
+                            del c[k]
+                        except IndexError:
+                            raise PyExc("IndexError", "list assignment index out of range")
+                    else:
+                        raise AnalysisError(f"peval: del on {c!r} at `{norm(st)}`")
                 elif isinstance(t, ast.Name):
                     fr.env.pop(t.id, None)
+                elif isinstance(t, ast.Attribute):
+                    o = self.eval(t.value, fr)
+                    if isinstance(o, Obj) and t.attr in o.attrs:
+                        del o.attrs[t.attr]
+                    elif isinstance(o, Obj):
+                        raise PyExc("AttributeError", t.attr)
+                    else:
+                        raise AnalysisError(f"peval: del of an attribute of {o!r} at `{norm(st)}`")
             return
         if isinstance(st, (ast.Import, ast.ImportFrom)):
             for al in st.names:
@@ -1085,6 +1162,12 @@ class Interp:
                 hk(self, st, fr)
                 return
             raise AnalysisError(f"peval: unsupported with-statement `{norm(st)[:80]}`")
+        if isinstance(st, ast.Global):
+            # names bound at module level: reads and writes of the frame go to the module's globals
+            if not hasattr(fr, "globals"):
+                fr.globals = set()
+            fr.globals.update(st.names)
+            return
         raise AnalysisError(f"peval: unsupported statement {type(st).__name__}: `{norm(st)[:80]}`")
 
     def _re_namespace(self):
@@ -1200,6 +1283,9 @@ class Interp:
 
     def assign(self, t, v, fr):
         if isinstance(t, ast.Name):
+            if t.id in getattr(fr, "globals", ()) and fr.modname is not None:
+                self.modglobals.setdefault(fr.modname, {})[t.id] = v
+                return
             fr.env[t.id] = v
         elif isinstance(t, (ast.Tuple, ast.List)):
             vals = self.iterate(v, t)
@@ -1290,6 +1376,8 @@ class Interp:
 
     # ------------------------------------------------------------------ expressions
     def lookup(self, name, fr):
+        if name in getattr(fr, "globals", ()) and fr.modname is not None:
+            return self.global_lookup(fr.modname, name)
         if name in fr.env:
             return fr.env[name]
         cl = getattr(fr, "closure", None)
@@ -1315,6 +1403,14 @@ class Interp:
         if isinstance(e, ast.Attribute):
             return self.getattr(self.eval(e.value, fr), e.attr, e)
         if isinstance(e, ast.Call):
+            if isinstance(e.func, ast.Name) and e.func.id == "super" and not e.args and not e.keywords and "super" not in fr.env:
+                # zero-argument super(): the class the running method was DEFINED in, and its first argument
+                fv = fr.func
+                owner = getattr(fv, "owner", None)
+                params = [x.arg for x in fv.node.args.posonlyargs + fv.node.args.args] if fv is not None else []
+                if owner is None or not params or params[0] not in fr.env:
+                    raise AnalysisError(f"peval: super() outside a method of a class of the analysed tree at `{norm(e)}`")
+                return SuperProxy(owner, fr.env[params[0]])
             f = self.eval(e.func, fr)
             args, kwargs = [], {}
             for a in e.args:
@@ -2212,6 +2308,8 @@ class Interp:
                 base = getattr(v, "perm", None) or list(range(v.ndim))
                 out.perm = [base[p] for p in perm]
                 out.base_shape = getattr(v, "base_shape", v.shape)
+            if getattr(v, "origin", None) is not None:
+                out.origin = v.origin  # a transposed array is a view of the same storage
             return out
         if name == "reshape":
             shp = list(self.iterate(a[0])) if len(a) == 1 and not isinstance(a[0], int) else list(a)
@@ -2224,6 +2322,8 @@ class Interp:
             out = SArr(shp, sym=v.sym)
             for idx, val in zip(out.indices(), flat):
                 out.data[idx] = val
+            if getattr(v, "origin", None) is not None and getattr(v, "perm", None) in (None, list(range(v.ndim))):
+                out.origin = v.origin  # reshaping a contiguous array gives a view
             return out
         if name in ("copy",):
             out = SArr(v.shape, dict(v.data), sym=v.sym)
